@@ -1,3 +1,4 @@
+mod bulk;
 mod gen;
 mod guards;
 mod seq;
@@ -40,6 +41,7 @@ fn main() {
         "seq" => cmd_seq(&args),
         "seq-replay" => cmd_seq_replay(&args),
         "guards" => cmd_guards(),
+        "bulk" => cmd_bulk(&args),
         other => {
             eprintln!("unknown command {}", other);
             std::process::exit(2);
@@ -154,4 +156,19 @@ fn cmd_guards() {
         })
         .collect();
     println!("[{}]", items.join(","));
+}
+
+/// bulk --seed S --cases N --ops FILE --impl FILE : serde / rayon paths (C19)
+fn cmd_bulk(args: &[String]) {
+    let seed: u64 = arg(args, "--seed").and_then(|s| s.parse().ok()).unwrap_or(1);
+    let cases: usize = arg(args, "--cases").and_then(|s| s.parse().ok()).unwrap_or(200);
+    let ops_path = arg(args, "--ops").unwrap_or("/tmp/bulk.ops".into());
+    let impl_path = arg(args, "--impl").unwrap_or("/tmp/bulk.impl".into());
+    let r = bulk::run(seed, cases);
+    std::fs::write(&ops_path, r.ops.join("\n") + "\n").unwrap();
+    std::fs::write(&impl_path, r.lines.join("\n") + "\n").unwrap();
+    println!(
+        "{{\"docs\":{},\"docs_with_repeated_keys\":{},\"roundtrips\":{},\"par_runs\":{},\"failures\":{},\"samples\":{}}}",
+        r.docs, r.docs_with_dups, r.roundtrips, r.par_runs, json_list(&r.failures), json_list(&r.samples)
+    );
 }
